@@ -3,6 +3,7 @@ import warnings
 from typing import Any
 from typing import Dict
 from typing import List
+from typing import Tuple
 
 from ..logs import ExecutionLog
 from ..market import Market
@@ -38,6 +39,7 @@ class TradingHaltRule(EventABC):
         self.is_enabled: bool = True
         self.halting_time_length: int = 1
         self.halting_time_started: int = 0
+        self.halting_markets: Dict[int, Tuple[Session, int]] = {}
         self.activation_count: int = 0
         self.target_markets: Dict[str, Market] = {}
         self.trigger_change_rate: float = 0.0
@@ -118,21 +120,33 @@ class TradingHaltRule(EventABC):
                         self.activation_count += 1
                         if simulator.current_session is None:
                             raise AssertionError
+                        self.halting_markets[m.market_id] = (
+                            simulator.current_session,
+                            m.time,
+                        )
                         simulator.current_session.with_order_execution = False
 
     def hooked_before_step_for_market(
         self, simulator: Simulator, market: Market
     ) -> None:
         """event to start the trading."""
-        # TODO: when halting is continued over session
-        if market.get_time() > self.halting_time_started + self.halting_time_length:
-            for m in self.target_markets.values():
-                if m == market:
-                    if simulator.current_session is None:
-                        raise AssertionError
+        for m in self.target_markets.values():
+            if m == market:
+                if simulator.current_session is None:
+                    raise AssertionError
+                if m.market_id not in self.halting_markets:
+                    continue
+                session, started = self.halting_markets[m.market_id]
+                if market.get_time() <= started + self.halting_time_length:
+                    continue
+                del self.halting_markets[m.market_id]
+                self.halting_time_started = 0
+                if session is not simulator.current_session:
+                    # halted in an earlier session: the current one already set its switches
+                    continue
+                m._is_running = True
+                if all(x.is_running for x in simulator.markets):
                     simulator.current_session.with_order_execution = True
-                    m._is_running = True
-                    self.halting_time_started = 0
 
 
 TradingHaltRule.hook_registration.__doc__ = EventABC.hook_registration.__doc__
